@@ -6,7 +6,8 @@ def run(res, a):
     if a.replay:
         return conc.replay(res, "C02", a.replay)
     vlib.proof_stage(res, "C02")
-    conc.run_conc(res, "C02", a.seed, a.tier)
+    # mode exit with reclaim-on-free: several threads race to adopt the same abandoned segment on their first free into it
+    conc.run_conc(res, "C02", a.seed, a.tier, envs=[None, {"VERIF_RECLAIM_ON_FREE": "1"}, {"VERIF_NO_ARENA": "1", "VERIF_RECLAIM_ON_FREE": "1"}], nseeds_quick=24)
     conc.run_lockstep(res, "C02", a.seed, a.tier)
     try:
         import tfree_sim
